@@ -1,17 +1,728 @@
-//! Engine `process` — placeholder (not written yet).
+//! Engine `process` (C03): the whole pipeline `Minidump::read` → `process_minidump_with_options` →
+//! `print` / `print_brief` / `print_json` on generated (minidump bytes, per-module symbol-file
+//! bytes) pairs, under `catch_unwind` and a wall-clock budget, plus the arithmetic kernels of the
+//! pipeline against the Lean model `MdModel.Process`.
+//!
+//! case lines
+//!   process gen seed:<n> cpu:<cpu> os:<os> feat:<hex> opt:<0..3> [mut:<seed>:<k>]
+//!       the pair is `pipeline_gen::build(seed, cpu, os, feat)`; `mut` = byte-level corruption of the dump
+//!   process file name:<testdata dump> opt:<0..3> mut:<seed>:<k> sym:<seed>:<feat hex>
+//!       a (mutated) dump of the repository; every module is served a generated symbol file
+//!   process raw dump:<hex> sym:<hex> opt:<0..3>
+//!       literal bytes (small shrunk inputs); every module is served the same symbol bytes
+//!   process limits <hex text> | process guard … | process fpo … | process push … | process printer …
+//!       kernel cases: the real code is run on the kernel's inputs and compared with the model
+//! opt: 0 stable_basic | 1 stable_all | 2 unstable_all | 3 unstable_all + stat reporter + evil json
+//!
+//! Oracle classes: process-panics, render-panics, too-many-frames, hang, json-invalid.
+//! For pipeline cases the canonical output holds what the model predicts from the kernel inputs
+//! extracted from the processed state (limits table, guard-page flags, printer offsets, frame
+//! bound); everything else is oracle-only (sampled).
+
+#[path = "pipeline_gen.rs"]
+pub mod pipeline_gen;
+#[path = "process_kernels.rs"]
+mod kernels;
+
 use crate::common::*;
+use minidump::*;
+use minidump_processor::{PendingProcessorStatSubscriptions, PendingProcessorStats, ProcessState, ProcessorOptions};
+use minidump_unwind::{
+    FileError, FileKind, FillSymbolError, FrameSymbolizer, FrameWalker, LocateSymbolsResult, SymbolError, SymbolFile, SymbolProvider,
+    SymbolStats, SymbolSupplier, Symbolizer,
+};
+use pipeline_gen as pg;
+use std::collections::HashMap;
+use std::path::PathBuf;
+use std::sync::atomic::{AtomicU64, Ordering};
+use std::sync::mpsc;
+use std::time::{Duration, Instant};
 
 pub struct Process;
+
+fn repo() -> PathBuf {
+    PathBuf::from(std::env::var("VERIF_REPO").unwrap_or_else(|_| "/repo".into()))
+}
+
+pub const TESTDATA: &[&str] = &[
+    "test.dmp",
+    "linux-mini.dmp",
+    "simple-crashpad.dmp",
+    "invalid-range.dmp",
+    "invalid-record-count.dmp",
+    "invalid-parameter.dmp",
+    "pipeline-inlines-macos-segv.dmp",
+];
+
+// ------------------------------------------------------------------------------------ suppliers
+
+struct GenSupplier {
+    syms: HashMap<String, Vec<u8>>,
+    /// the same bytes for every module (raw cases)
+    all: Option<Vec<u8>>,
+    /// generate a file for modules that have none: (seed, cpu, os, feat)
+    fallback: Option<(u64, String, String, u32)>,
+}
+
+#[async_trait::async_trait]
+impl SymbolSupplier for GenSupplier {
+    async fn locate_symbols(&self, module: &(dyn minidump_common::traits::Module + Sync)) -> Result<LocateSymbolsResult, SymbolError> {
+        tokio::task::yield_now().await;
+        let name = module.code_file().to_string();
+        let bytes: Vec<u8> = if let Some(b) = &self.all {
+            b.clone()
+        } else if let Some(b) = self.syms.get(&name) {
+            b.clone()
+        } else if let Some((seed, cpu, os, feat)) = &self.fallback {
+            let mut rng = Rng::new(seed ^ fnv64(name.as_bytes()));
+            pg::gen_symbols(&mut rng, cpu, os, &name, module.base_address(), module.size().min(u32::MAX as u64) as u32, *feat)
+        } else {
+            return Err(SymbolError::NotFound);
+        };
+        SymbolFile::from_bytes(&bytes).map(|symbols| LocateSymbolsResult { symbols, extra_debug_info: None })
+    }
+    async fn locate_file(&self, _module: &(dyn minidump_common::traits::Module + Sync), _file_kind: FileKind) -> Result<PathBuf, FileError> {
+        Err(FileError::NotFound)
+    }
+}
+
+/// A provider that counts symbol queries and stops a runaway walk (an unbounded walk would
+/// otherwise only show as a hang / memory exhaustion).
+struct Counting {
+    inner: Symbolizer,
+    calls: AtomicU64,
+    limit: u64,
+    /// `walk_frame` is asked at most once per produced frame
+    walks: AtomicU64,
+    walk_limit: u64,
+}
+
+#[async_trait::async_trait]
+impl SymbolProvider for Counting {
+    async fn fill_symbol(&self, module: &(dyn minidump_common::traits::Module + Sync), frame: &mut (dyn FrameSymbolizer + Send)) -> Result<(), FillSymbolError> {
+        if self.calls.fetch_add(1, Ordering::Relaxed) > self.limit {
+            panic!("runaway-walk: more than {} symbol queries", self.limit);
+        }
+        self.inner.fill_symbol(module, frame).await
+    }
+    async fn walk_frame(&self, module: &(dyn minidump_common::traits::Module + Sync), walker: &mut (dyn FrameWalker + Send)) -> Option<()> {
+        if self.walks.fetch_add(1, Ordering::Relaxed) > self.walk_limit {
+            panic!("runaway-walk: more than {} frames unwound", self.walk_limit);
+        }
+        self.inner.walk_frame(module, walker).await
+    }
+    async fn get_file_path(&self, module: &(dyn minidump_common::traits::Module + Sync), file_kind: FileKind) -> Result<PathBuf, FileError> {
+        self.inner.get_file_path(module, file_kind).await
+    }
+    fn stats(&self) -> HashMap<String, SymbolStats> {
+        self.inner.stats()
+    }
+}
+
+// ------------------------------------------------------------------------------------ cases
+
+pub enum Pipe {
+    Gen { seed: u64, cpu: String, os: String, feat: u32, opt: u32, mutation: Option<(u64, u32)> },
+    File { name: String, opt: u32, mutation: (u64, u32), sym: (u64, u32) },
+    Raw { dump: Vec<u8>, sym: Vec<u8>, opt: u32 },
+}
+
+fn kv<'a>(f: &'a str, key: &str) -> Option<&'a str> {
+    f.strip_prefix(key)?.strip_prefix(':')
+}
+fn pair(s: &str) -> Option<(u64, u32)> {
+    let (a, b) = s.split_once(':')?;
+    Some((a.parse().ok()?, b.parse().ok()?))
+}
+fn pair_hex(s: &str) -> Option<(u64, u32)> {
+    let (a, b) = s.split_once(':')?;
+    Some((a.parse().ok()?, u32::from_str_radix(b, 16).ok()?))
+}
+
+pub fn parse_pipe(f: &[&str]) -> Option<Pipe> {
+    match *f.get(1)? {
+        "gen" => {
+            let mut mutation = None;
+            if let Some(m) = f.get(7) {
+                mutation = Some(pair(kv(m, "mut")?)?);
+            }
+            if f.len() > 8 {
+                return None;
+            }
+            Some(Pipe::Gen {
+                seed: kv(f.get(2)?, "seed")?.parse().ok()?,
+                cpu: kv(f.get(3)?, "cpu")?.to_string(),
+                os: kv(f.get(4)?, "os")?.to_string(),
+                feat: u32::from_str_radix(kv(f.get(5)?, "feat")?, 16).ok()?,
+                opt: kv(f.get(6)?, "opt")?.parse().ok()?,
+                mutation,
+            })
+        }
+        "file" => {
+            if f.len() != 6 {
+                return None;
+            }
+            Some(Pipe::File {
+                name: kv(f[2], "name")?.to_string(),
+                opt: kv(f[3], "opt")?.parse().ok()?,
+                mutation: pair(kv(f[4], "mut")?)?,
+                sym: pair_hex(kv(f[5], "sym")?)?,
+            })
+        }
+        "raw" => {
+            if f.len() != 5 {
+                return None;
+            }
+            Some(Pipe::Raw { dump: unhex(kv(f[2], "dump")?)?, sym: unhex(kv(f[3], "sym")?)?, opt: kv(f[4], "opt")?.parse().ok()? })
+        }
+        _ => None,
+    }
+}
+
+struct Materialised {
+    dump: Vec<u8>,
+    supplier: GenSupplier,
+    evil: Option<String>,
+    opt: u32,
+    tags: Vec<String>,
+}
+
+fn materialise(p: &Pipe) -> Option<Materialised> {
+    match p {
+        Pipe::Gen { seed, cpu, os, feat, opt, mutation } => {
+            if !pg::CPUS.contains(&cpu.as_str()) || !pg::OSES.contains(&os.as_str()) {
+                return None;
+            }
+            let b = pg::build(*seed, cpu, os, *feat)?;
+            let mut dump = b.dump;
+            let mut tags = b.tags;
+            tags.push(format!("cpu:{cpu}"));
+            tags.push(format!("os:{os}"));
+            tags.push(format!("kind:{}", if mutation.is_some() { "gen+mut" } else { "gen" }));
+            if let Some((s, k)) = mutation {
+                pg::mutate_dump(&mut dump, *s, *k);
+            }
+            Some(Materialised { dump, supplier: GenSupplier { syms: b.syms, all: None, fallback: None }, evil: b.evil, opt: *opt, tags })
+        }
+        Pipe::File { name, opt, mutation, sym } => {
+            if !TESTDATA.contains(&name.as_str()) {
+                return None;
+            }
+            let mut dump = std::fs::read(repo().join("testdata").join(name)).ok()?;
+            if mutation.1 > 0 {
+                pg::mutate_dump(&mut dump, mutation.0, mutation.1);
+            }
+            let cpu = match name.as_str() {
+                "test.dmp" => "x86",
+                _ => "amd64",
+            };
+            let os = match name.as_str() {
+                "linux-mini.dmp" => "linux",
+                "pipeline-inlines-macos-segv.dmp" => "macos",
+                _ => "windows",
+            };
+            let tags = vec![format!("kind:file{}", if mutation.1 > 0 { "+mut" } else { "" }), format!("file:{name}")];
+            Some(Materialised {
+                dump,
+                supplier: GenSupplier { syms: HashMap::new(), all: None, fallback: Some((sym.0, cpu.into(), os.into(), sym.1)) },
+                evil: None,
+                opt: *opt,
+                tags,
+            })
+        }
+        Pipe::Raw { dump, sym, opt } => Some(Materialised {
+            dump: dump.clone(),
+            supplier: GenSupplier { syms: HashMap::new(), all: Some(sym.clone()), fallback: None },
+            evil: None,
+            opt: *opt,
+            tags: vec!["kind:raw".into()],
+        }),
+    }
+}
+
+/// what one run of the pipeline produced
+#[derive(Default)]
+pub struct PipeResult {
+    pub read_ok: bool,
+    pub process: String, // "ok" | "err:<kind>" | "panic"
+    pub oracle: Vec<(String, String)>,
+    pub tags: Vec<String>,
+    /// model-comparable part: (request, implementation answer)
+    pub kernel: Option<(String, String)>,
+}
+
+/// the evil-json file of option set 3 (removed when the handle is dropped)
+fn evil_file(text: &str) -> Option<tempfile::NamedTempFile> {
+    use std::io::Write;
+    let mut f = tempfile::Builder::new().prefix("mdharness-evil").suffix(".json").tempfile().ok()?;
+    f.write_all(text.as_bytes()).ok()?;
+    f.flush().ok()?;
+    Some(f)
+}
+
+fn run_pipeline(m: Materialised) -> PipeResult {
+    let mut res = PipeResult { tags: m.tags.clone(), ..Default::default() };
+    res.tags.push(format!("opt:{}", m.opt));
+    let dump_len = m.dump.len();
+    let dump = match catch(|| Minidump::read(m.dump.as_slice())) {
+        Err(msg) => {
+            // reading is C01's subject, but a panic here is a panic of "full processing" too
+            res.process = "panic".into();
+            res.oracle.push(("process-panics".into(), format!("Minidump::read panicked: {msg}")));
+            return res;
+        }
+        Ok(Err(e)) => {
+            res.process = "unreadable".into();
+            res.tags.push(format!("read:{}", e.name()));
+            return res;
+        }
+        Ok(Ok(d)) => d,
+    };
+    res.read_ok = true;
+    // the runaway guard: generous (scanning asks the symbolizer about every candidate word)
+    let total_mem: u64 = catch(|| dump.get_memory().map(|ml| ml.iter().map(|m| m.size().min(1 << 20)).sum::<u64>()).unwrap_or(0)).unwrap_or(0);
+    let nthreads = catch(|| dump.get_stream::<MinidumpThreadList>().map(|t| t.threads.len() as u64).unwrap_or(0)).unwrap_or(0);
+    let max_mem: u64 = catch(|| dump.get_memory().map(|ml| ml.iter().map(|m| m.size().min(1 << 24)).max().unwrap_or(0)).unwrap_or(0)).unwrap_or(0);
+    // a thread's own stack descriptor counts too (it is used even when the memory lists are unreadable)
+    let walk_limit = catch(|| {
+        let ml = dump.get_memory().unwrap_or_default();
+        dump.get_stream::<MinidumpThreadList>()
+            .map(|tl| tl.threads.iter().map(|t| t.stack_memory(&ml).map(|m| m.size()).unwrap_or(0).max(max_mem).min(1 << 24) + 2).sum::<u64>())
+            .unwrap_or(0)
+    })
+    .unwrap_or(0)
+        + 64;
+    // scanning asks the symbolizer about every candidate word (up to 160 per frame)
+    let limit = walk_limit.saturating_mul(200).saturating_add(10_000).min(200_000_000);
+    let provider = Counting { inner: Symbolizer::new(m.supplier), calls: AtomicU64::new(0), limit, walks: AtomicU64::new(0), walk_limit };
+    let evil = m.evil.as_deref().and_then(evil_file);
+    let mut subs = PendingProcessorStatSubscriptions::default();
+    subs.thread_count = true;
+    subs.frame_count = true;
+    subs.unwalked_result = true;
+    subs.live_frames = true;
+    let stats = PendingProcessorStats::new(subs);
+    let mut options = match m.opt {
+        0 => ProcessorOptions::stable_basic(),
+        1 => ProcessorOptions::stable_all(),
+        _ => ProcessorOptions::unstable_all(),
+    };
+    if m.opt == 3 {
+        options.stat_reporter = Some(&stats);
+        options.evil_json = evil.as_ref().map(|f| f.path());
+    }
+    let rt = tokio::runtime::Builder::new_current_thread().enable_all().build().unwrap();
+    let processed = catch(|| rt.block_on(minidump_processor::process_minidump_with_options(&dump, &provider, options)));
+    drop(evil);
+    let state: ProcessState = match processed {
+        Err(msg) => {
+            res.process = "panic".into();
+            if msg.starts_with("runaway-walk") {
+                res.oracle.push(("too-many-frames".into(), format!("{msg} (dump of {dump_len} bytes, {total_mem} bytes of memory, {nthreads} threads)")));
+            } else {
+                res.oracle.push(("process-panics".into(), msg));
+            }
+            return res;
+        }
+        Ok(Err(e)) => {
+            res.process = format!("err:{}", e.name());
+            res.tags.push(format!("process:err:{}", e.name()));
+            return res;
+        }
+        Ok(Ok(s)) => s,
+    };
+    res.process = "ok".into();
+    res.tags.push("process:ok".into());
+    if m.opt == 3 {
+        // the reporter's accessors must work too
+        let r = catch(|| {
+            let (done, total) = stats.get_thread_count();
+            let frames = stats.get_frame_count();
+            let mut live = 0u64;
+            stats.drain_new_frames(|_| live += 1);
+            let unwalked = stats.take_unwalked_result().is_some();
+            (done, total, frames, live, unwalked)
+        });
+        match r {
+            Err(msg) => res.oracle.push(("process-panics".into(), format!("stat reporter: {msg}"))),
+            Ok((done, total, frames, live, _)) => {
+                let real: u64 = state.threads.iter().map(|t| t.frames.len() as u64).sum();
+                if frames != real || live != real || total != state.threads.len() as u64 || done > total {
+                    res.tags.push("reporter-count-differs".into());
+                }
+            }
+        }
+    }
+
+    // ---- the frame bound: frames <= bytes of the stack memory the walk used + 2
+    let bound_r = catch(|| {
+        let memory_list = dump.get_memory().unwrap_or_default();
+        let threads = dump.get_stream::<MinidumpThreadList>().ok();
+        let mut out: Vec<(usize, u64, u64)> = vec![]; // (thread, frames, stack bytes)
+        if let Some(tl) = threads {
+            for (i, (stack, thread)) in state.threads.iter().zip(tl.threads.iter()).enumerate() {
+                let mut sm = thread.stack_memory(&memory_list);
+                if let Some(f0) = stack.frames.first() {
+                    let sp = f0.context.get_stack_pointer();
+                    let contains = sm.as_ref().and_then(|m| m.get_memory_at_address::<u64>(sp)).is_some();
+                    if !contains {
+                        sm = memory_list.memory_at_address(sp).or(sm);
+                    }
+                }
+                out.push((i, stack.frames.len() as u64, sm.map(|m| m.size()).unwrap_or(0)));
+            }
+        }
+        out
+    });
+    let bounds = bound_r.unwrap_or_default();
+    let mut max_frames = 0;
+    for (i, frames, bytes) in &bounds {
+        max_frames = max_frames.max(*frames);
+        if *frames > bytes.saturating_add(2) {
+            res.oracle.push(("too-many-frames".into(), format!("thread {i}: {frames} frames from a stack memory of {bytes} bytes")));
+        }
+    }
+    res.tags.push(format!("frames:{}", match max_frames { 0 => "0", 1 => "1", 2 => "2", 3..=9 => "3-9", 10..=99 => "10-99", _ => "100+" }));
+    for t in &state.threads {
+        for f in t.frames.iter().skip(1) {
+            res.tags.push(format!("trust:{}", f.trust.as_str()));
+        }
+        if t.frames.iter().any(|f| f.function_name.is_some()) {
+            res.tags.push("symbolicated".into());
+        }
+        if t.frames.iter().any(|f| f.arguments.is_some()) {
+            res.tags.push("args-recovered".into());
+        }
+        if t.frames.iter().any(|f| !f.unloaded_modules.is_empty()) {
+            res.tags.push("unloaded-hit".into());
+        }
+        if t.frames.iter().any(|f| !f.inlines.is_empty()) {
+            res.tags.push("inlines".into());
+        }
+    }
+    res.tags.sort();
+    res.tags.dedup();
+    if let Some(ei) = &state.exception_info {
+        res.tags.push("crash-info".into());
+        if ei.instruction_str.is_some() {
+            res.tags.push("op-analysis".into());
+        }
+        if ei.memory_access_list.as_ref().is_some_and(|l| !l.is_empty()) {
+            res.tags.push("mem-accesses".into());
+        }
+        if ei.memory_access_list.as_ref().is_some_and(|l| l.iter().any(|a| a.address_info.is_likely_guard_page)) {
+            res.tags.push("guard-page".into());
+        }
+        if !ei.possible_bit_flips.is_empty() {
+            res.tags.push("bit-flips".into());
+        }
+        if !ei.inconsistencies.is_empty() {
+            res.tags.push("inconsistencies".into());
+        }
+        if ei.adjusted_address.is_some() {
+            res.tags.push("adjusted-address".into());
+        }
+    }
+    if state.linux_proc_limits.as_ref().is_some_and(|l| !l.limits.is_empty()) {
+        res.tags.push("limits-parsed".into());
+    }
+
+    // ---- render
+    let mut json_compact: Option<Vec<u8>> = None;
+    let mut text_full: Option<Vec<u8>> = None;
+    for (what, f) in [
+        ("print", Box::new(|s: &ProcessState, v: &mut Vec<u8>| s.print(v).map_err(|e| e.to_string())) as Box<dyn Fn(&ProcessState, &mut Vec<u8>) -> Result<(), String>>),
+        ("print_brief", Box::new(|s: &ProcessState, v: &mut Vec<u8>| s.print_brief(v).map_err(|e| e.to_string()))),
+        ("print_json", Box::new(|s: &ProcessState, v: &mut Vec<u8>| s.print_json(v, false).map_err(|e| e.to_string()))),
+        ("print_json_pretty", Box::new(|s: &ProcessState, v: &mut Vec<u8>| s.print_json(v, true).map_err(|e| e.to_string()))),
+    ] {
+        let mut v: Vec<u8> = vec![];
+        match catch(|| f(&state, &mut v)) {
+            Err(msg) => res.oracle.push(("render-panics".into(), format!("{what}: {msg}"))),
+            Ok(Err(e)) => res.oracle.push(("render-fails".into(), format!("{what}: {e}"))),
+            Ok(Ok(())) => {
+                if what.starts_with("print_json") {
+                    match serde_json::from_slice::<serde_json::Value>(&v) {
+                        Ok(_) => {
+                            if what == "print_json" {
+                                json_compact = Some(v);
+                            }
+                        }
+                        Err(e) => res.oracle.push(("json-invalid".into(), format!("{what}: {e}"))),
+                    }
+                } else if v.is_empty() {
+                    res.oracle.push(("render-fails".into(), format!("{what}: empty output")));
+                } else if what == "print" {
+                    text_full = Some(v);
+                }
+            }
+        }
+    }
+    // ---- the kernels: inputs extracted from the dump / the state, answers from the state / the JSON
+    res.kernel = catch(|| kernels::pipeline_kernels(&dump, &state, json_compact.as_deref(), text_full.as_deref(), &bounds)).unwrap_or(None);
+    res
+}
+
+fn budget(len: usize) -> Duration {
+    // VERIF_BUDGET_MS overrides the base (self-test of the `hang` path: 0 makes every case time out)
+    let base = std::env::var("VERIF_BUDGET_MS").ok().and_then(|s| s.parse::<u64>().ok()).unwrap_or(5000);
+    Duration::from_millis(base + if base == 0 { 0 } else { len as u64 })
+}
+
+/// run the case on a worker thread under the wall-clock budget
+fn run_with_budget(p: &Pipe) -> Option<PipeResult> {
+    let m = match catch(|| materialise(p)) {
+        Ok(m) => m?,
+        Err(msg) => {
+            // a bug of the generator, not of the code under test
+            eprintln!("process: generator panicked: {msg} :: {}", describe(p));
+            return None;
+        }
+    };
+    let len = m.dump.len();
+    if let Ok(path) = std::env::var("VERIF_DUMP_TO") {
+        // debugging aid: keep the generated pair
+        let _ = std::fs::write(&path, &m.dump);
+        for (i, (name, bytes)) in m.supplier.syms.iter().enumerate() {
+            let _ = std::fs::write(format!("{path}.sym{i}"), [format!("# {name}\n").as_bytes(), bytes.as_slice()].concat());
+        }
+    }
+    let (tx, rx) = mpsc::channel();
+    let t0 = Instant::now();
+    let handle = std::thread::Builder::new().stack_size(16 << 20).spawn(move || {
+        let r = catch(|| run_pipeline(m));
+        let _ = tx.send(r);
+    });
+    let Ok(handle) = handle else { return None };
+    match rx.recv_timeout(budget(len)) {
+        Ok(Ok(mut r)) => {
+            let _ = handle.join();
+            let ms = t0.elapsed().as_millis();
+            r.tags.push(format!("time:{}", if ms < 10 { "<10ms" } else if ms < 100 { "<100ms" } else if ms < 1000 { "<1s" } else { ">=1s" }));
+            Some(r)
+        }
+        Ok(Err(msg)) => {
+            let _ = handle.join();
+            let mut r = PipeResult::default();
+            r.process = "panic".into();
+            r.oracle.push(("process-panics".into(), format!("outside the guarded calls: {msg}")));
+            Some(r)
+        }
+        Err(_) => {
+            // the worker is left behind (it cannot be cancelled); the case is a hang
+            let mut r = PipeResult::default();
+            r.process = "hang".into();
+            r.oracle.push(("hang".into(), format!("no result within {:?} for a dump of {len} bytes", budget(len))));
+            Some(r)
+        }
+    }
+}
+
+thread_local! {
+    /// (case, model request) of the last pipeline case executed on this thread
+    static LAST: std::cell::RefCell<Option<(String, Option<String>)>> = const { std::cell::RefCell::new(None) };
+}
+
+fn render_gen(seed: u64, cpu: &str, os: &str, feat: u32, opt: u32, mutation: Option<(u64, u32)>) -> String {
+    let mut s = format!("process gen seed:{seed} cpu:{cpu} os:{os} feat:{feat:x} opt:{opt}");
+    if let Some((a, b)) = mutation {
+        s.push_str(&format!(" mut:{a}:{b}"));
+    }
+    s
+}
 
 impl Engine for Process {
     fn name(&self) -> &'static str {
         "process"
     }
     fn rule(&self) -> String {
-        "not implemented".into()
+        "pipeline cases: (minidump bytes, per-module symbol bytes) pairs = minidump-synth dumps for 10 CPU kinds (x86 amd64 arm arm64 arm64-old mips mips64 ppc ppc64 sparc) x 5 OSes (threads with 16..4096-byte stacks seeded with return addresses and frame links, also at the top of the address space; modules; exception with own context and crashing amd64 code; memory-info list or Linux maps with regions up to 2^64-1; /proc limits with short/blank lines, lsb-release, cpuinfo, status, environ; misc info, handles, unloaded modules, crashpad/breakpad/mac streams, thread names), byte-mutated copies of them and of 7 repo dumps, symbol files from a grammar (MODULE/FILE/FUNC+lines/INLINE/PUBLIC/STACK CFI incl. rules that never touch memory/STACK WIN with extreme sizes) plus byte corruption, options 0..3 (stable_basic, stable_all, unstable_all, unstable_all+stat reporter+evil json); each run under catch_unwind and a 5 s + 1 ms/byte budget; frames per thread compared with stack bytes + 2; print, print_brief, print_json(false/true) rendered, JSON re-parsed. the kernel inputs of every processed state (limits text, by_addr regions and the region at each accessed address, module lists and frames) go to the Lean model and its answers are compared with the state / JSON / text report. kernel cases: /proc limits text (limitscase), guard-page region lists incl. ends at 2^64-1 (guardcase), push/call/pop/ret with rsp 0..16 and boundaries (pushcase), STACK WIN FPO records with u32 extremes (fpo) against the model; oracle-only sweep of crashing amd64 instructions (opscan: every opcode of the one-byte and 0F maps x 128 ModRM/SIB forms x prefixes; op: guided and random bytes). non-trivial = the dump was readable and processing returned a ProcessState that was rendered (pipeline) / the kernel produced a non-empty answer (kernel); distinct = distinct case line".into()
     }
-    fn generate(&self, _tier: Tier, _rng: &mut Rng, _emit: &mut dyn FnMut(String)) {}
-    fn exec(&self, _case: &str) -> ImplResult {
-        ImplResult::default()
+    fn exhaustive_part(&self) -> Option<String> {
+        Some("every (CPU kind, OS, option set) combination = 10 x 5 x 4 is generated at least twice per run; pushcase: all rsp in 0..=16 x {push, call, pop, ret}; opscan: all 256 opcodes of the one-byte and 0F maps (no prefix; REX.W: every second opcode in the quick tier, all in thorough) x 128 ModRM forms".into())
+    }
+
+    fn generate(&self, tier: Tier, rng: &mut Rng, emit: &mut dyn FnMut(String)) {
+        let quick = tier == Tier::Quick;
+        // 1. all CPU x OS x option combinations, rich feature sets
+        let rounds = if quick { 4 } else { 30 };
+        for round in 0..rounds {
+            for cpu in pg::CPUS {
+                for os in pg::OSES {
+                    for opt in 0..4u32 {
+                        let mut feat = (rng.next() as u32) & pg::F_ALL;
+                        // usually little endian, with stacks, modules and an exception
+                        if !rng.chance(1, 10) {
+                            feat &= !pg::F_BIG;
+                        }
+                        if round % 2 == 0 {
+                            feat |= pg::F_STACKS | pg::F_MODULES | pg::F_EXCEPTION | pg::F_EXC_CONTEXT | pg::F_SYM_CFI;
+                        }
+                        if *cpu == "amd64" && rng.chance(3, 4) {
+                            feat |= pg::F_CODE | pg::F_EXCEPTION | pg::F_EXC_CONTEXT;
+                        }
+                        if opt < 3 {
+                            feat &= !pg::F_EVIL;
+                        }
+                        let mutation = if rng.chance(1, 4) { Some((rng.below(1 << 32), rng.range(1, 6) as u32)) } else { None };
+                        emit(render_gen(rng.below(1 << 40), cpu, os, feat, opt, mutation));
+                    }
+                }
+            }
+        }
+        // 2. focused streams: well-formed dumps aimed at one mechanism each
+        let n = if quick { 3000 } else { 40000 };
+        for i in 0..n {
+            let cpu = match i % 6 {
+                0 | 1 => "amd64",
+                3 => "x86",
+                _ => *rng.pick(pg::CPUS),
+            };
+            let os = *rng.pick(pg::OSES);
+            let base = pg::F_STACKS | pg::F_MODULES | pg::F_EXCEPTION | pg::F_EXC_CONTEXT;
+            let feat = match i % 6 {
+                0 => base | pg::F_CODE | pg::F_MEMINFO | (rng.next() as u32 & (pg::F_HOSTILE | pg::F_MEM64)),
+                1 => base | pg::F_CODE | pg::F_MAPS | pg::F_LIMITS | pg::F_PROC,
+                2 => base | pg::F_SYM_CFI | pg::F_SYM_FUNC | (rng.next() as u32 & (pg::F_HOSTILE | pg::F_SYM_CORRUPT | pg::F_UNLOADED)),
+                3 => base | pg::F_SYM_WIN | pg::F_SYM_FUNC | (rng.next() as u32 & (pg::F_SYM_CFI | pg::F_SYM_CORRUPT)),
+                4 => base | pg::F_HOSTILE | pg::F_UNLOADED | pg::F_SYM_FUNC | pg::F_SYM_CFI | (rng.next() as u32 & pg::F_ALL & !pg::F_BIG),
+                _ => (rng.next() as u32) & pg::F_ALL & !pg::F_BIG,
+            };
+            let opt = if feat & pg::F_EVIL != 0 { 3 } else { rng.below(4) as u32 };
+            emit(render_gen(rng.below(1 << 40), cpu, os, feat, opt, None));
+        }
+        // 3. mutated repository dumps
+        let n = if quick { 600 } else { 10000 };
+        for i in 0..n {
+            let name = TESTDATA[i % TESTDATA.len()];
+            let k = if i < TESTDATA.len() { 0 } else { rng.range(1, 8) };
+            emit(format!(
+                "process file name:{name} opt:{} mut:{}:{k} sym:{}:{:x}",
+                rng.below(4),
+                rng.below(1 << 32),
+                rng.below(1 << 32),
+                (pg::F_SYM_FUNC | pg::F_SYM_CFI | pg::F_SYM_WIN | pg::F_SYM_CORRUPT) & rng.next() as u32
+            ));
+        }
+        // 4. kernel cases (model-compared)
+        kernels::generate(tier, rng, emit);
+    }
+
+    fn model_request(&self, case: &str) -> Option<String> {
+        // the request is derived from what the implementation produced (kernel inputs extracted from
+        // the dump / the state); `exec` leaves it here
+        let cached = LAST.with(|l| l.borrow().as_ref().filter(|(c, _)| c == case).map(|(_, r)| r.clone()));
+        match cached {
+            Some(r) => r,
+            None => {
+                let _ = self.exec(case);
+                LAST.with(|l| l.borrow().as_ref().filter(|(c, _)| c == case).and_then(|(_, r)| r.clone()))
+            }
+        }
+    }
+
+    fn exec(&self, case: &str) -> ImplResult {
+        let mut res = ImplResult::default();
+        if std::env::var("VERIF_LOUD").is_ok() {
+            std::panic::set_hook(Box::new(|info| eprintln!("panic at {:?}: {info}", info.location())));
+        }
+        let f: Vec<&str> = case.split(' ').filter(|s| !s.is_empty()).collect();
+        if f.first() != Some(&"process") {
+            res.out = "bad-op".into();
+            return res;
+        }
+        if let Some(p) = parse_pipe(&f) {
+            let Some(r) = run_with_budget(&p) else {
+                res.out = "bad-op".into();
+                LAST.with(|l| *l.borrow_mut() = Some((case.to_string(), None)));
+                return res;
+            };
+            res.oracle = r.oracle;
+            res.tags = r.tags;
+            res.tags.push(format!("outcome:{}", r.process.split(':').next().unwrap_or("")));
+            res.nontrivial = r.process == "ok";
+            match r.kernel {
+                Some((req, ans)) => {
+                    res.out = ans;
+                    LAST.with(|l| *l.borrow_mut() = Some((case.to_string(), Some(req))));
+                }
+                None => {
+                    res.out = r.process;
+                    LAST.with(|l| *l.borrow_mut() = Some((case.to_string(), None)));
+                }
+            }
+            return res;
+        }
+        let req = kernels::exec(&f, &mut res);
+        LAST.with(|l| *l.borrow_mut() = Some((case.to_string(), req)));
+        res
+    }
+
+    fn shrink(&self, case: &str, still_fails: &dyn Fn(&str) -> bool) -> String {
+        let f: Vec<&str> = case.split(' ').filter(|s| !s.is_empty()).collect();
+        if f.get(1) == Some(&"opscan") && f.len() == 5 {
+            // name the single instruction
+            let pfx = kv(f[2], "pfx").map(|p| if p == "-" { vec![] } else { unhex(p).unwrap_or_default() }).unwrap_or_default();
+            let map = kv(f[3], "map").unwrap_or("1");
+            let op: u8 = kv(f[4], "op").and_then(|s| s.parse().ok()).unwrap_or(0);
+            for code in kernels::opscan_codes(&pfx, map, op) {
+                let c = format!("process op code:{} rsp:4", hex(&code));
+                if still_fails(&c) {
+                    return c;
+                }
+            }
+            return case.to_string();
+        }
+        let Some(Pipe::Gen { seed, cpu, os, mut feat, mut opt, mut mutation }) = parse_pipe(&f) else {
+            return case.to_string();
+        };
+        let mut best = case.to_string();
+        // drop the mutation, lower the option set, clear feature bits one at a time
+        if mutation.is_some() {
+            let c = render_gen(seed, &cpu, &os, feat, opt, None);
+            if still_fails(&c) {
+                mutation = None;
+                best = c;
+            } else if let Some((s, k)) = mutation {
+                for k2 in 1..k {
+                    let c = render_gen(seed, &cpu, &os, feat, opt, Some((s, k2)));
+                    if still_fails(&c) {
+                        mutation = Some((s, k2));
+                        best = c;
+                        break;
+                    }
+                }
+            }
+        }
+        for o in 0..opt {
+            let c = render_gen(seed, &cpu, &os, feat & if o < 3 { !pg::F_EVIL } else { !0 }, o, mutation);
+            if still_fails(&c) {
+                opt = o;
+                if o < 3 {
+                    feat &= !pg::F_EVIL;
+                }
+                best = c;
+                break;
+            }
+        }
+        for bit in 0..25 {
+            if feat & (1 << bit) == 0 {
+                continue;
+            }
+            let c = render_gen(seed, &cpu, &os, feat & !(1 << bit), opt, mutation);
+            if still_fails(&c) {
+                feat &= !(1 << bit);
+                best = c;
+            }
+        }
+        best
+    }
+}
+
+fn describe(p: &Pipe) -> String {
+    match p {
+        Pipe::Gen { seed, cpu, os, feat, opt, mutation } => render_gen(*seed, cpu, os, *feat, *opt, *mutation),
+        Pipe::File { name, mutation, .. } => format!("file {name} mut:{}:{}", mutation.0, mutation.1),
+        Pipe::Raw { .. } => "raw".into(),
     }
 }
